@@ -369,6 +369,16 @@ def lst5(units, R):
     members = [root]
     seen = {root.name}
     work = [root]
+    so0 = u.functions.get('sort_object')
+    if so0 is not None:
+        # static helpers sort_object itself is split into (another way of ordering the members) belong to the sorter as well
+        for c in so0.calls():
+            h = u.functions.get(callee_name(c))
+            if h is not None and h.static and h.name not in seen and h.name != 'compare_strings' and \
+                    any('cJSON' in u.ty(p_['ty'])['s'] for p_ in h.params):
+                seen.add(h.name)
+                members.append(h)
+                work.append(h)
     while work:
         f0 = work.pop()
         for c in f0.calls():
@@ -382,7 +392,11 @@ def lst5(units, R):
     for fn in members:
         for a in assignments(fn):
             l = strip_casts(a['l'])
-            if l.get('k') == 'mem':
+            if l.get('k') == 'mem' and 'cJSON' not in u.ty(strip_casts(l['b']).get('ty0', strip_casts(l['b'])['ty']))['s']:
+                n += 1
+                R.ob('LST5', fn, a, 'store %s goes into a record of the sorter\'s own' % expr_str(a)[:60], True,
+                     'not a field of a tree node', key='scratch:' + l['f'])
+            elif l.get('k') == 'mem':
                 n += 1
                 ok = l['f'] in ('next', 'prev')
                 R.ob('LST5', fn, a, 'store %s touches link fields only' % expr_str(a)[:60], ok,
@@ -412,13 +426,25 @@ def lst5(units, R):
             cn = callee_name(c)
             n += 1
             ok = cn in ('compare_strings', 'strcmp') or cn in seen
+            why_ok = 'recursion / helper of the sorter / key comparator'
+            if not ok and cn == 'qsort' and c.get('args'):
+                a0 = strip_casts(c['args'][0])
+                ok = a0.get('k') == 'ref' and a0.get('dk') == 'local' and 'cJSON *' not in u.ty(a0.get('ty0', a0['ty']))['s'].replace('struct ', '')[:8]
+                why_ok = 'the C library sorts the sorter\'s own array'
+            if not ok and cn in ('cJSON_malloc', 'malloc'):
+                ok = True
+                why_ok = 'scratch memory'
+            if not ok and cn in ('cJSON_free', 'free') and c.get('args'):
+                a0 = strip_casts(c['args'][0])
+                ok = a0.get('k') == 'ref' and a0.get('dk') == 'local' and 'cJSON' not in u.ty(a0.get('ty0', a0['ty']))['s']
+                why_ok = 'scratch memory released'
             R.ob('LST5', fn, c, 'call %s' % (cn or expr_str(c['fn'])), ok,
-                 'recursion / helper of the sorter / key comparator' if ok else 'sorting calls %s (may allocate, release or edit nodes)' % cn,
+                 why_ok if ok else 'sorting calls %s (may allocate, release or edit nodes)' % cn,
                  key='call:%s' % cn)
     so = u.fn('sort_object')
     for c in so.calls():
         cn = callee_name(c)
-        ok = cn == 'sort_list'
+        ok = cn == 'sort_list' or cn in seen
         R.ob('LST5', so, c, 'sort_object calls %s' % cn, ok, '' if ok else 'unexpected callee', key='so-call:%s' % cn)
     for a in assignments(so):
         l = strip_casts(a['l'])
@@ -429,7 +455,7 @@ def lst5(units, R):
     # every internal sorter goes through sort_object (so LST1's obligation there covers them)
     for f2 in u.function_list:
         for c in f2.calls():
-            if callee_name(c) == 'sort_list' and f2.name not in ('sort_list', 'sort_object'):
+            if callee_name(c) == 'sort_list' and f2.name not in ('sort_list', 'sort_object') and f2.name not in seen:
                 R.ob('LST5', f2, c, 'sort_list called outside sort_object', False,
                      'the caller must restore child->prev itself', key='direct-sort')
     R.floor('LST5', 'stores and calls in sort_list', n, 6)
